@@ -160,4 +160,27 @@ theorem wsum_pos {F : Type} [Field F] [LinearOrder F] [IsStrictOrderedRing F]
 def CacheOk (sm : Nat → Option (Smoother K)) (nE : Nat) (s : Cached K) : Prop :=
   ∀ c, s.cache = some c → c = dataSmooth sm nE s.data
 
+/-- the invariant of one live result: a memoised `dataSmooth`, if present, is the smoothing of ITS OWN current data
+    with ITS OWN smoothers -/
+def ObjOk (o : Obj K) : Prop := ∀ c, o.cache = some c → c = dataSmooth o.sm o.nE o.data
+
+theorem mem_updAt {α : Type} (l : List α) (i : Nat) (f : α → α) (x : α) (h : x ∈ updAt l i f) :
+    x ∈ l ∨ ∃ a ∈ l, x = f a := by
+  induction l generalizing i with
+  | nil => simp [updAt] at h
+  | cons a l ih =>
+    cases i with
+    | zero =>
+      simp only [updAt, List.mem_cons] at h
+      rcases h with h | h
+      · right; exact ⟨a, by simp, h⟩
+      · left; exact List.mem_cons_of_mem _ h
+    | succ i =>
+      simp only [updAt, List.mem_cons] at h
+      rcases h with h | h
+      · left; rw [h]; simp
+      · rcases ih i h with h | ⟨b, hb, rfl⟩
+        · left; exact List.mem_cons_of_mem _ h
+        · right; exact ⟨b, List.mem_cons_of_mem _ hb, rfl⟩
+
 end WB.C17
